@@ -13,7 +13,7 @@ CHECKS = {
         "coefficients). The computed step of the real integrators on y' = lambda y (real and oscillatory-damped, |z| 1e-3..1e8) is compared "
         "with R(z) evaluated exactly. The step itself is proved too (step_is_stability_function, implicit_step_does_not_grow, finite sums over C): for "
         "ANY stage values solving the stage equations of y' = lambda y, Q(w) y1 = P(w) y0, hence |y1| <= (1 + 1e-12)|y0| for every h*lambda in "
-        "the closed left half-plane. That the integrator's Newton solve returns such stage values is what the comparison checks.",
+        "the closed left half-plane. That the integrator's Newton solve returns such stage values is what the comparison checks. Extended-precision states (numpy.longdouble, the library's own dogleg solver) are driven through __call__ as well; that block exposed the genuine defect P32 (unconverged stage solves accepted), repaired in /repo 11f3fca.",
    note="Trusted: Lean kernel, standard axioms, translate.py (certificates are untrusted inputs, only the table extraction is trusted), "
         "harness. The slack 1e-12 is the effect of rounding the coefficients to float64 (|R| = 1 exactly on the imaginary axis for the "
         "Gauss/Lobatto IIIA/IIIB families); rounding inside the stage solve is covered by the comparison only.",
@@ -33,7 +33,7 @@ CHECKS = {
         "every four times differentiable f (fourth derivative f4) whose end values and end slopes are the data of the piece, f(x) - H(x) = f4(xi)/24 (x-t0)^2 (x-t1)^2 "
         "for some xi inside the piece, either orientation (interpolation_error_smooth: four rounds of Rolle's theorem), hence at most "
         "max|f4| h^4/384 (interpolation_error_smooth_bound), with the exact error formula and sharpness of the constant on quartics "
-        "(interpolation_error_on_quartic[_bound,_sharp]); the error against the closed-form solution is measured as well.",
+        "(interpolation_error_on_quartic[_bound,_sharp]); the error against the closed-form solution is measured as well. Deep Richardson wrappers (7 levels) and the oracle every-recorded-step-has-a-piece are part of the dense-output runs.",
    note="Trusted: Lean kernel, standard axioms, translate.py (Hermite), harness. The slope caches of the integrators and the "
         "container's add/remove history are exercised, not modelled.",
    technique="Lean 4 proof (bisection specification lifted to both storage orders; generated Hermite identities) + bit-exact lookup correspondence + closed-form measurements",
@@ -46,7 +46,7 @@ CHECKS = {
         "same function. Tied to the code by recomputing the probes for every step of seeded runs (1..6 events, 12 decades of scale, "
         "directions, terminal flags, both time directions, dense on/off, boundary crossings) and replaying selection and bookkeeping "
         "through the model. Not proved: closeness to a root of the exact trajectory (needs C05/C06); measured on the harmonic oscillator. "
-        "Known findings: events are located on the cubic dense output (O(h^4)); event state vs dense output after a terminal stop.",
+        "Known findings: events are located on the cubic dense output (O(h^4)); event state vs dense output after a terminal stop. The literal constants of event handling (duplicate tolerance eps^0.7, probe offsets, receptive fields) are regenerated from the source text (event_constants_are_the_sources).",
    note="Trusted: Lean kernel, standard axioms, harness (the probe recomputation restates the code's sampling offsets).",
    technique="Lean 4 proof (insertion-sort/truncation lemmas, case analysis) + per-step replay of recorded probes + closed-form oracles",
    design="5 (C07-C09)"),
@@ -57,7 +57,7 @@ CHECKS = {
         "events never hide each other (any number of events). The first link - the root finder reports success for every sign change - is "
         "C14's lane_sign_change_success since the repair of P14/P12 in /repo (before it half of the crossings of a plain oscillator were "
         "dropped for event functions of scale >= 10 at |t| >= 2). The whole chain is evaluated on the implementation: sign of g at "
-        "consecutive recorded samples vs reported events.",
+        "consecutive recorded samples vs reported events. Families added after genuine defect P33 (repaired in /repo 8e91f12): runs far from the origin with steps tiny relative to |t|, and event functions down to 1e-18 monitored next to O(1) ones.",
    note="Trusted: Lean kernel, standard axioms, harness. The composition root finder -> probes -> selection is not one theorem: the probes' "
         "signs come from the dense output evaluated near the located root (measured).",
    technique="Lean 4 proof (completeness of sort+truncate) + per-step replay + sign-change oracle on recorded samples",
@@ -73,7 +73,7 @@ CHECKS = {
         "every site), replayed bit for bit against integrate(t, events=...) on seeded operation sequences; theorems: "
         "terminal_stop_reports_status_two, terminal_stop_lands_on_event (the samples after a stop are those recorded before the event "
         "step followed by the nested call's steps, which end within max(eps, tolEps) of the root). Known findings: event time located on "
-        "the cubic dense output; a later call that passes the same terminal event again stays at the stop and lists the crossing again (P30).",
+        "the cubic dense output; a later call that passes the same terminal event again stays at the stop and lists the crossing again (P30). The same event objects re-flagged (is_terminal / direction) between consecutive calls are part of the scenarios.",
    note="Trusted: Lean kernel, standard axioms, harness. Inputs of the event-loop model (oracle): integrator returns, callback actions, the "
         "probes delivered by the root finder and the sampled event functions (C14, C08), whether handle_events raises. Dense output and "
         "states are compared on the implementation.",
@@ -89,7 +89,7 @@ CHECKS = {
         "back ends did; the consumer accepts iff success and prec < tol. Tied to the code by recording what the back ends returned (wrappers "
         "around the module's own functions) for a bank of systems (n = 1..12, shapes, with/without Jacobian, good/bad starts, singular "
         "Jacobians, systems without a root) and feeding it to the model. Known finding P21 (hybrj path claims success without a residual "
-        "test), with a model-level counterexample in Findings/C15.",
+        "test), with a model-level counterexample in Findings/C15. Since fix P32 the residual norm is handed back on every path: accept_implies_small_residual proves that whatever the three back ends report, an accepted implicit stage solve has a residual norm below the requested tolerance. Solvers are also driven with var_bounds (cold and warm starts).",
    note="Trusted: Lean kernel, standard axioms, harness. MINPACK's own success flag and the numerical iterations are inputs of the model; "
         "every claimed success is checked against ||F(x)|| <= 100 tol sqrt(n) on the implementation.",
    technique="Lean 4 proof on a decision-logic model + recorded back-end outcomes + residual oracle on a bank of systems",
@@ -102,7 +102,7 @@ CHECKS = {
         "private fields to the ghost 'attached function'); the finite-difference stencils regenerated from the code (2..8 nodes) are exact "
         "on polynomials below their node count to 1e-12. Tied to the code by replaying random op sequences on the real wrapper, observing "
         "who answered (tagged functions) and at which times the right-hand side was evaluated. Measured, not proved: accuracy on smooth "
-        "non-polynomial maps, the [i..., j...] layout for non-square and multi-dimensional shapes, linear maps to rounding.",
+        "non-polynomial maps, the [i..., j...] layout for non-square and multi-dimensional shapes, linear maps to rounding. The column loop of JacobianWrapper.estimate is modelled (DV.Jac.fdColumn) and compared with the implementation on polynomial maps for every base order (driver command fdcol, regenerated stencils); fd_column_of_affine_map proves for every affine map, point, direction and step that the computed column is (sum w / dy) f(y) + (sum w x) L e, i.e. the derivative up to the stencil defects bounded by stencils_exact; fd_column_exact_stencil. States in Fortran order / transposed / strided views are part of the oracle families.",
    note="Trusted: Lean kernel, standard axioms, translate.py (stencils), harness. Richardson extrapolation of the finite differences and its "
         "adaptive stopping rule are not modelled.",
    technique="Lean 4 proof (state-machine invariant over arbitrary op sequences; verified computation on generated stencils) + op-sequence differential testing",
@@ -155,7 +155,7 @@ CHECKS = {
         "contract of the C03 loop theorems, and on the memory-less controller branch acceptance forces the scaled error estimate below one "
         "(uses tan 0.19 < 0.2, proved). The model is tied to the code by replaying every recorded __call__ of seeded adaptive runs bit for "
         "bit. NOT proved (numerical analysis): global error <= C x tolerance x amplification; it is measured by tolerance sweeps on "
-        "closed-form problems, both directions, initial steps 1e-4..5, as validation and failing-input search.",
+        "closed-form problems, both directions, initial steps 1e-4..5, as validation and failing-input search. Composition with the time-grid machine: DV.Run.ctrlOrc makes the accept/retry model the integrator of the C03 loop; controller_is_an_admissible_integrator and adaptive_run_covers_span prove for every behaviour of the error estimates that a whole adaptive run records only accepted steps, strictly monotonically toward the target, and ends within max(eps, tolEps) of it or raises. The controller's literal constants (0.8, 0.9^2, 64 retries) are regenerated from the source text and tied to the theorems (controller_constants_are_the_sources). Error estimates that are not numbers (0/0, overflow) must not be accepted: undefined_estimate_block.",
    note="Trusted: Lean kernel, standard axioms (Mathlib real analysis), harness. The error estimate's relation to the true local error and "
         "the accumulation of local errors are outside the proof; update_timestep's power-law part is an input of the model (its output is "
         "recorded and replayed).",
@@ -170,7 +170,7 @@ CHECKS = {
         "FSAL one; an implicit call that returns hands back an attempt whose Newton flag was set, otherwise it raises after exactly 1+64 "
         "attempts. Tied to the code by comparing step() and __call__ sequences of all 32 methods in float32/64/longdouble on random "
         "polynomial right-hand sides with the exact rational model value and with the Runge-Kutta definition; returned implicit stages are "
-        "substituted into the stage equations exactly.",
+        "substituted into the stage equations exactly. The implicit acceptance is composed with the solver front end of C15: the attempt handed back solved its stage equations with a residual norm below the tolerance on every back-end path (implicit_step_handed_back_has_small_residual; the extended-precision path since fix P32). Whole adaptive explicit runs are judged step by step in exact arithmetic (harness/runsim.py: every recorded state is its predecessor advanced by one step of the scheme).",
    note="Trusted: Lean kernel, standard axioms, translate.py (tables), harness. Rounding of the vector kernels is bounded by 2000 eps x magnitude "
         "in the comparison, not formalised; the meaning of the nonlinear solver's precision is C15's.",
    technique="Lean 4 proof (induction over the stage loop in an arbitrary module; case analysis of the retry loop) + exact-rational differential correspondence",
@@ -215,7 +215,7 @@ CHECKS = {
         "since the last reset; callback clauses proved on the loop model (assigned dt is stored and requested next, callbacks see the "
         "recorded step). The substance is the correspondence: DiffRHS op sequences vs the model, independent counters inside the user's "
         "rhs/Jacobian vs nfev/njev for 12 method configurations x dense x events x direction incl. failures and resets, callback order / "
-        "once-per-step / visibility, and replay of callback-dt scenarios through the loop model.",
+        "once-per-step / visibility, and replay of callback-dt scenarios through the loop model. A right-hand-side wrapper that was used on its own before systems are built from it, and callbacks assigning dt in calls whose target lies beyond the constructor's span, are part of the scenarios.",
    note="Trusted: Lean kernel, standard axioms, harness. The counter model is deliberately tiny; where evaluations happen inside the "
         "integrators is not modelled but measured with independent counters.",
    technique="Lean 4 proof on counter/loop models + independent-counter differential testing",
@@ -253,7 +253,7 @@ CHECKS = {
         "back for fixed-step explicit RK and splitting methods; fixed_step_samples_paired proves for every right-hand side and any sequence of "
         "calls that times and states stay paired, the first sample is (t0, y0) and every state is its predecessor advanced by one step of the "
         "method over the recorded interval; harness/runsim.py compares whole runs of the real OdeSystem with it (times exactly, states "
-        "against exact rationals) and evaluates the per-step relation independently of the model.",
+        "against exact rationals) and evaluates the per-step relation independently of the model. Literal constants of the loop (buffer cap 5000, halving 0.5, epsilon = 4 eps, tol_epsilon = 32 eps) are regenerated from the source text and tied to the model (loop_constants_are_the_sources).",
    note="Trusted: Lean kernel, standard axioms, harness. Modelled, not verified: IEEE rounding (theorems over Q; replay is bit-exact on "
         "generated inputs), the states y (pairing/finite/dtype are checked on the implementation only), event handling (C07-C09). The "
         "integrator contract is an explicit hypothesis, checked on every recorded return.",
@@ -269,7 +269,7 @@ CHECKS = {
         "(sign_change_success, lane_sign_change_success) - became provable with the repair of P14 in /repo; lane versions of all of these. "
         "The model is tied to the code by bit-exact float64 replay of the implementation's iterate sequences (root bits, flag, every "
         "evaluated point). Known finding P14b: the iteration cap (c is never advanced, so interpolation steps alternate with forced "
-        "bisections) stops the solver on jump discontinuities with the bracket still wider than xtol.",
+        "bisections) stops the solver on jump discontinuities with the bracket still wider than xtol. The iteration cap of both solvers is regenerated from the source text and tied to the models (brent_cap_is_the_sources); function values whose pairwise products overflow are part of the families.",
    note="Trusted: Lean kernel, the 3 standard axioms, harness. Theorems are over exact rationals; float rounding inside the solver is covered "
         "only by the bit-exact replay on generated inputs. Vector solver modelled lane-wise (lanes are independent given the masks); "
         "vector/scalar agreement is checked on the implementation, not proved.",
@@ -285,7 +285,7 @@ CHECKS = {
         "partitioned RK methods over alternating bicoloured trees. The Richardson table is modelled as coded and its weights are "
         "proved to sum to one and to annihilate exactly h^1..h^(R-2) (order max(p, R-1)). Partial: RadauIIA19 via trees to order 10 + "
         "simplifying assumptions B(19),C(10),D(9); RK1412 to order 12 in the quick tier (14 in thorough). Known findings: the two "
-        "Nielsen splitting schemes (order 4, declared 7/6) and Richardson wrappers not raising the order.",
+        "Nielsen splitting schemes (order 4, declared 7/6) and Richardson wrappers not raising the order. The Richardson block checks that generate_richardson_integrator(basis, R) really has R levels after shallower requests for the same basis.",
    note="Trusted: Lean kernel + compiler for the three native_decide theorems; translate.py; Butcher's theorem, P-series theory and "
         "Gragg's expansion are cited (the theorems prove the algebraic conditions for the code's coefficients); the enumeration "
         "is sound for every tree by DVP.Trees.checkOrder_sound (level sizes are additionally compared with OEIS A000081 on every run); that the code "
@@ -299,7 +299,7 @@ CHECKS = {
         "Hermite value/gradient, regenerated from interpolation.py on every run, reproduce end values, end slopes and "
         "every cubic over any field, for either orientation, and the gradient is the derivative of the value. "
         "The bisection model is tied to the code by an exhaustive small-scope differential run (all strictly increasing "
-        "arrays of length 1..7 over a 9-point grid, all half-integer queries) plus bit-exact float64 replay.",
+        "arrays of length 1..7 over a 9-point grid, all half-integer queries) plus bit-exact float64 replay. Queries whose dtype differs from the array's (integer / float32 / float16 queries) and a Hermite piece queried with a time array advanced in place are part of the oracle families.",
    note="Trusted: Lean kernel, propext/Classical.choice/Quot.sound, translate.py (Hermite AST -> Lean), the harness. "
         "Rounding of the float evaluation of the Hermite formula is outside the theorems (exact field arithmetic); it is "
         "compared under a 64-ulp forward bound. The vector search is modelled lane-wise.",
